@@ -20,6 +20,7 @@ RT_DOC = "http://schemas.openxmlformats.org/officeDocument/2006/relationships/of
 RT_A = "http://t/a"
 RT_B = "http://t/b"
 MAIN = "/ppt/main.xml"
+PAYLOADS = [b"blob-0", b""]  # the second part is present but empty (zero-length payloads are legal)
 MAIN_CT = "application/x-main"  # neutral type: the part stays a plain Part (payload passes through untouched)
 NAMES = ["/ppt/slides/s1.bin", "/ppt/media/m2.bin", "/docProps/c3.PNG", "/ppt/slides/s4.xml"]
 TYPES = [CT.PML_PRINTER_SETTINGS, CT.SML_PRINTER_SETTINGS, CT.PNG, CT.XML, "application/x-unregistered"]
@@ -105,8 +106,8 @@ def content_types_survive_n{n0}(t0: int, d0: bool, n1: int, t1: int, d1: bool) -
                "ppt/_rels/main.xml.rels": M.rels_xml([("rId1", RT_A, chosen[0][0], False), ("rId2", RT_B, chosen[1][0], False)])}}
     expect_parts = {{MAIN: (MAIN_CT, b"<main/>")}}
     for i, (name, ct, _) in enumerate(chosen):
-        members[name[1:]] = b"blob-%d" % i
-        expect_parts[name] = (ct, b"blob-%d" % i)
+        members[name[1:]] = PAYLOADS[i]
+        expect_parts[name] = (ct, PAYLOADS[i])
     expect_rels = {{"/": {{("rId1", RT_DOC, False, MAIN)}}, MAIN: {{("rId1", RT_A, False, chosen[0][0]), ("rId2", RT_B, False, chosen[1][0])}},
                    chosen[0][0]: set(), chosen[1][0]: set()}}
     return _check_round_trips(M.MemFile(members), expect_parts, expect_rels)
@@ -135,6 +136,11 @@ def content_types_twin(n0: int, t0: int, n1: int, t1: int) -> bool:
 
 
 # ------------------------------------------------------------------ K2: relationship graph
+def _graph_payload(i):
+    return b"" if i == 2 else b"payload-%d" % i  # a zero-length part is a part like any other
+
+
+
 SPELL = ["rel", "abs", "dot"]
 
 
@@ -218,12 +224,12 @@ def _graph_case(edges):
                                                           [(MAIN, MAIN_CT)]),
                "_rels/.rels": M.rels_xml(rels["/"])}
     for i, p in enumerate(GRAPH_PARTS):
-        members[p[1:]] = b"payload-%d" % i
+        members[p[1:]] = _graph_payload(i)
         if rels[p]:
             members[M.rels_member(p)] = M.rels_xml(rels[p])
     types = {MAIN: MAIN_CT, "/ppt/slides/s1.bin": "application/x-bin", "/ppt/media/m2.bin": "application/x-bin", "/top.xml": CT.XML,
              "/ppt/slidesX/q5.bin": "application/x-bin"}
-    expect_parts = {p: (types[p], b"payload-%d" % GRAPH_PARTS.index(p)) for p in reach}
+    expect_parts = {p: (types[p], _graph_payload(GRAPH_PARTS.index(p))) for p in reach}
     expect_rels = {"/": {("rId1", RT_DOC, False, MAIN)}}
     for p in reach:
         expect_rels[p] = set()
